@@ -26,6 +26,8 @@ func main() {
 		cmdCheck(os.Args[2:])
 	case "externals":
 		cmdExternals()
+	case "baseline-all":
+		cmdBaselineAll(os.Args[2:])
 	default:
 		fmt.Fprintln(os.Stderr, "unknown command")
 		os.Exit(2)
@@ -284,4 +286,75 @@ func cmdExternals() {
 	for _, k := range ks {
 		fmt.Printf("%4d %s\n", cnt[k], k)
 	}
+}
+
+// cmdBaselineAll verifies every function in scope once and writes one
+// baseline list per property: the obligations that discharged quickly.
+func cmdBaselineAll(args []string) {
+	fs := flag.NewFlagSet("baseline-all", flag.ExitOnError)
+	to := fs.Int("timeout", 10, "solver timeout (s)")
+	maxT := fs.Float64("max", 4.0, "only obligations discharged faster than this enter the baseline")
+	merge := fs.Bool("intersect", false, "intersect with the existing baseline files")
+	fs.Parse(args)
+	solverTimeout = *to
+	setup("")
+	var results []*FuncResult
+	for _, fn := range scopeFuncs() {
+		results = append(results, verifyFunction(fn))
+	}
+	if lr := verifyLemmas(); lr != nil {
+		results = append(results, lr)
+	}
+	var wg sync.WaitGroup
+	fsem := make(chan struct{}, 6)
+	all := func(o *Obl) bool { return true }
+	for _, r := range results {
+		wg.Add(1)
+		go func(r *FuncResult) {
+			defer wg.Done()
+			fsem <- struct{}{}
+			discharge(r, all, false)
+			<-fsem
+		}(r)
+	}
+	wg.Wait()
+	per := map[string][]string{}
+	nOK, nAll := 0, 0
+	for _, r := range results {
+		for _, o := range r.Obls {
+			nAll++
+			if (o.Status == "unsat" || o.Status == "trivial") && o.TimeS < *maxT {
+				nOK++
+				for _, p := range o.Props {
+					per[p] = append(per[p], o.Name)
+				}
+			} else if o.Status != "unsat" && o.Status != "trivial" {
+				fmt.Printf("%-8s %s\n", o.Status, o.Name)
+			}
+		}
+	}
+	os.MkdirAll("/verif/baseline", 0o755)
+	for p, names := range per {
+		sort.Strings(names)
+		if *merge {
+			old := loadBaseline(p)
+			var keep []string
+			for _, n := range names {
+				if old == nil || old[n] {
+					keep = append(keep, n)
+				}
+			}
+			names = keep
+		}
+		// dedupe
+		var out []string
+		for i, n := range names {
+			if i == 0 || names[i-1] != n {
+				out = append(out, n)
+			}
+		}
+		os.WriteFile("/verif/baseline/"+p+".txt", []byte(strings.Join(out, "\n")+"\n"), 0o644)
+		fmt.Printf("baseline %s: %d obligations\n", p, len(out))
+	}
+	fmt.Printf("obligations=%d baseline-eligible=%d\n", nAll, nOK)
 }
